@@ -58,6 +58,7 @@ def _create(case, tag):
     st.stored = {}       # txid -> snapshot taken when it was stored
     st.others = []
     st.n_add = 0
+    st.sent = []         # txids of broadcast transactions in order
     st.flags = set()
     st.single = wc['kind'] == 'single'
     return st
@@ -80,6 +81,7 @@ def _after_broadcast(st, t):
         for i in t.inputs:
             st.spent[(i.prev_txid.hex(), i.output_n_int)] = t.txid
         st.stored[t.txid] = _snapshot(t)
+        st.sent.append(t.txid)
         st.flags.add('broadcast')
 
 
@@ -137,9 +139,29 @@ def apply_op(ctx, st, op, case):
                                       'transaction %s' % (name, outp[0][:12], outp[1], st.spent[outp][:12]),
                                       case)
             _after_broadcast(st, t)
+        elif name == 'spend_output':
+            # spend one specific output of an earlier broadcast transaction (selection restricted to its key)
+            if st.sent:
+                src = st.sent[op['of'] % len(st.sent)]
+                cands = [u for u in w.utxos() if u['txid'] == src]
+                if cands:
+                    u = cands[op['n'] % len(cands)]
+                    t = w.send_to(_foreign_addr(op['key']), max(1000, u['value'] // 2), input_key_id=u['key_id'],
+                                  broadcast=True, min_confirms=0)
+                    for i in t.inputs:
+                        outp = (i.prev_txid.hex(), i.output_n_int)
+                        if outp in st.spent and st.spent[outp] != t.txid:
+                            raise Discrepancy('I3.reselected', 'spend_output selected outpoint %s:%d already consumed by '
+                                              'sent transaction %s' % (outp[0][:12], outp[1], st.spent[outp][:12]), case)
+                    _after_broadcast(st, t)
+                    st.flags.add('sibling_spend')
         elif name == 'delete':
             if st.stored:
-                txid = sorted(st.stored)[op['key'] % len(st.stored)]
+                if 'last' in op:
+                    order = [x for x in st.sent if x in st.stored]
+                    txid = order[-1 - (op['last'] % len(order))]
+                else:
+                    txid = sorted(st.stored)[op['key'] % len(st.stored)]
                 w.transaction_delete(txid)
                 del st.stored[txid]
                 st.spent = {k: v for k, v in st.spent.items() if v != txid}
@@ -314,8 +336,20 @@ def _strategy(ctx):
                      st.fixed_dictionaries({'op': st.just('utxo_add'), 'key': st.integers(0, 5), 'value': value,
                                             'n': st.integers(0, 2), 'conf': st.sampled_from([1, 6])}))
     # every history starts by funding the wallet (a history without funds refuses every spend)
-    ops = st.tuples(st.lists(fund, min_size=1, max_size=3),
-                    st.lists(op, min_size=5, max_size=ctx.scale(25, 50))).map(lambda t: t[0] + t[1])
+    spend_out = st.fixed_dictionaries({'op': st.just('spend_output'), 'of': st.integers(0, 3), 'n': st.integers(0, 2),
+                                       'key': st.integers(0, 5)})
+    own_send = st.fixed_dictionaries(dict(send, op=st.just('send'), foreign=st.just(False), broadcast=st.just(True),
+                                          min_confirms=st.just(0)))
+    # directed prefix: a transaction with several own outputs whose outputs are then spent one by one by different
+    # transactions, one of which is deleted again (sibling outputs, delete/un-spend bookkeeping)
+    sibling = st.tuples(own_send, st.lists(st.one_of(spend_out, spend_out, st.just({'op': 'reopen'})), min_size=2,
+                                           max_size=4),
+                        st.fixed_dictionaries({'op': st.just('delete'), 'key': st.integers(0, 5),
+                                               'last': st.integers(0, 2)})).map(lambda t: [t[0]] + t[1] + [t[2]])
+    tail = st.lists(st.one_of(op, op, op, spend_out), min_size=3, max_size=ctx.scale(22, 45))
+    ops = st.one_of(
+        st.tuples(st.lists(fund, min_size=1, max_size=3), tail).map(lambda t: t[0] + t[1]),
+        st.tuples(st.lists(fund, min_size=1, max_size=2), sibling, tail).map(lambda t: t[0] + t[1] + t[2]))
     return st.fixed_dictionaries({'kind': st.just('history'), 'wallet': wallet, 'ops': ops,
                                   'rng': st.integers(0, 2 ** 31)})
 
@@ -331,4 +365,4 @@ def run(ctx):
             ctx.nt(case)
             if len(ctx.samples) < 2:
                 ctx.sample(case)
-    ctx.run_given('history', _strategy(ctx), prop, ctx.scale(8, 120), shrink=ctx.tier == 'thorough')
+    ctx.run_given('history', _strategy(ctx), prop, ctx.scale(14, 150), shrink=ctx.tier == 'thorough')
